@@ -58,8 +58,18 @@ package vm
 //@ spec fun sprintI(i any) string
 //@ spec fun strRepeat(s string, n int) string
 
-// equality relation of the language (C06), see the contract of equal
-//@ spec fun eqV(a reflect.Value, b reflect.Value) bool
-
 // the two boolean values
 //@ global_inv bools: trueValue != falseValue && rvKind(trueValue) == reflect.Bool && rvBool(trueValue) && rvKind(falseValue) == reflect.Bool && !rvBool(falseValue) && rvValid(trueValue) && rvValid(falseValue)
+
+// ---------------------------------------------------------------------------
+// equality (C06). eqV is the relation of the property statement on the core value classes; eqOther stands for the
+// structural comparison of everything else (containers: reflect.DeepEqual) and is ASSUMED symmetric.
+//@ spec fun nilableK(k int) bool = k == reflect.Chan || k == reflect.Func || k == reflect.Interface || k == reflect.Map || k == reflect.Ptr || k == reflect.Slice
+//@ spec fun nilV(v reflect.Value) bool = nilableK(rvKind(v)) && rvIsNil(v)
+//@ spec fun eqD(v reflect.Value) reflect.Value = ite(rvKind(v) == reflect.Interface || rvKind(v) == reflect.Ptr, rvElem(v), v)
+//@ spec fun eqOther(a reflect.Value, b reflect.Value) bool
+//@ axiom eqOther-sym: forall a RV, b RV :: eqOther(a, b) == eqOther(b, a)
+//@ spec fun corePair(x reflect.Value, y reflect.Value) bool = (rvKind(x) == reflect.Int64 && rvKind(y) == reflect.Int64) || (rvKind(x) == reflect.Float64 && rvKind(y) == reflect.Float64) || (rvKind(x) == reflect.Int64 && rvKind(y) == reflect.Float64) || (rvKind(x) == reflect.Float64 && rvKind(y) == reflect.Int64) || (rvKind(x) == reflect.String && rvKind(y) == reflect.String) || (rvKind(x) == reflect.Bool && rvKind(y) == reflect.Bool)
+//@ spec fun eqCore(x reflect.Value, y reflect.Value) bool = ite(rvKind(x) == reflect.Int64 && rvKind(y) == reflect.Int64, rvInt(x) == rvInt(y), ite(rvKind(x) == reflect.String && rvKind(y) == reflect.String, rvStr(x) == rvStr(y), ite(rvKind(x) == reflect.Bool && rvKind(y) == reflect.Bool, rvBool(x) == rvBool(y), ite(corePair(x, y), feq(asF(x), asF(y)), eqOther(x, y)))))
+//@ spec fun eqV(a reflect.Value, b reflect.Value) bool = ite(nilV(a) || nilV(b), nilV(a) && nilV(b), eqCore(eqD(a), eqD(b)))
+//@ lemma [C06] eqV-symmetric: forall a RV, b RV :: eqV(a, b) == eqV(b, a)
